@@ -4,7 +4,8 @@
 #include <stdlib.h>
 size_t cqv_any_bytes, cqv_j, cqv_i, cqv_b;
 extern size_t cqv_g, cqv_total;
-extern int cqv_watch, cqv_calls, cqv_rec_kind;
+extern int64_t cqv_watch, cqv_calls; extern int cqv_rec_kind;
+extern int64_t cqv_cur, cqv_elem, cqv_el_u32_seq, cqv_el_data_seq; extern int cqv_el_has_u32, cqv_el_has_data; extern uint32_t cqv_el_u32; extern const void *cqv_el_data; extern size_t cqv_el_size;
 extern const void *cqv_rec_data; extern size_t cqv_rec_size; extern uint32_t cqv_rec_u32;
 extern uint8_t *cqv_rec_ptr;
 #define CQV_COUNT_OK(c, max) ((c) <= (int64_t)(max))
@@ -53,4 +54,36 @@ void h_enc_fixedwidth(void) {
   __CPROVER_assert((in == NULL || buf == NULL || count < 0 || (CQV_WHICH == 4 && fl <= 0)) ==> (st != CARQUET_OK && cqv_calls == 0), "bad arguments rejected before touching the buffer");
   __CPROVER_assert((in != NULL && buf != NULL && count >= 0 && !(CQV_WHICH == 4 && fl <= 0)) ==> (cqv_calls == 1 && cqv_rec_kind == 1 && cqv_rec_buf == buf && cqv_rec_data == in && cqv_rec_size == bytes && st == cqv_rec_ret), "exactly one append of the input bytes, count*width of them; its status is returned");
   CQV_CANARY("returns"); if (st == CARQUET_OK && count > 0) CQV_CANARY("can succeed"); if (st != CARQUET_OK) CQV_CANARY("can fail");
+}
+
+static void reset_rec(void) {
+  cqv_any_bytes = nondet_size_t(); cqv_calls = 0; cqv_total = 0; cqv_rec_kind = 0; cqv_cur = -1;
+  cqv_el_has_u32 = 0; cqv_el_has_data = 0;
+}
+void h_enc_int96(void) {
+  reset_rec(); cqv_watch = nondet_i64(); cqv_elem = -1;
+  __CPROVER_assume(cqv_watch >= 0 && cqv_any_bytes <= CQV_MAXBUF);
+  int64_t count = nondet_i64();
+  __CPROVER_assume(count <= (int64_t)(CQV_MAXBUF / 12));                 /* A2: the input object */
+  carquet_int96_t *in = nondet_bool() ? malloc(count >= 0 ? (((size_t)count << 3) + ((size_t)count << 2)) : cqv_any_bytes) : NULL;
+  carquet_buffer_t *buf = nondet_bool() ? malloc(sizeof(carquet_buffer_t)) : NULL;
+  carquet_status_t st = carquet_encode_plain_int96(in, count, buf);
+  CQV_CANARY("returns"); if (st == CARQUET_OK && count > 2) CQV_CANARY("can succeed"); if (st != CARQUET_OK) CQV_CANARY("can fail");
+  if (st == CARQUET_OK && cqv_watch < cqv_calls && cqv_watch > 3) CQV_CANARY("watched call recorded");
+}
+void h_enc_byte_array(void) {
+  reset_rec(); cqv_watch = -1; cqv_elem = nondet_i64();
+  __CPROVER_assume(cqv_elem >= 0 && cqv_any_bytes <= CQV_MAXBUF);
+  int64_t count = nondet_i64();
+  __CPROVER_assume(count <= (int64_t)(CQV_MAXBUF >> 4));                 /* A2: the input object */
+  carquet_byte_array_t *in = nondet_bool() ? malloc(count >= 0 ? ((size_t)count << 4) : cqv_any_bytes) : NULL;
+  if (in != NULL && cqv_elem < count) {                                  /* the ghost element is a valid value or an odd one */
+    int32_t len = nondet_i32();
+    uint8_t *d = nondet_bool() ? malloc(len > 0 ? (size_t)len : 0) : NULL;
+    in[cqv_elem].length = len; in[cqv_elem].data = d;
+  }
+  carquet_buffer_t *buf = nondet_bool() ? malloc(sizeof(carquet_buffer_t)) : NULL;
+  carquet_status_t st = carquet_encode_plain_byte_array(in, count, buf);
+  CQV_CANARY("returns"); if (st == CARQUET_OK && count > 2) CQV_CANARY("can succeed"); if (st != CARQUET_OK) CQV_CANARY("can fail");
+  if (st == CARQUET_OK && cqv_elem < count && cqv_el_has_data == 1 && cqv_elem > 1) CQV_CANARY("watched element with payload");
 }
